@@ -7,9 +7,11 @@ THEOREMS = ["C09_projection", "C09_projection_dist", "C09_max_lift", "C09_max_u_
             "C09_max_keeps_projection", "C09_max_wf", "C09_zero_mass", "C09_idempotent"]
 EXTRA_MODULES = [("SLV.Props.OracleSpec", ("OS_projQ", "OS_maxUQ"))]
 RULE = ("ops proj/maxu/umax on well-formed opinions: random dyadic grids (1/4..1/64) with zero base rates, "
-        "vacuous/dogmatic/zero-mass opinions, arbitrary floats; n=1..4 and 2-D shapes via flattening; "
-        "families A/M/D/N, styles o/r/s, f32+f64. non-trivial = implementation returned a value and the "
-        "case line is distinct")
+        "vacuous/dogmatic/zero-mass opinions, arbitrary floats; n=1..4; "
+        "families A/M/D/N, styles o/r/s, f32+f64; the same opinions over 2-D / 3-D domains (families M2/M3/D2/D3/N2/N3 = "
+        "MArr2/MArr3/MArrD2/MArrD3 with usize and newtype indices, shapes 1x2 .. 2x2x3, operands built with `new`, results read cell "
+        "by cell through the index operator and compared with an independently built container). non-trivial = implementation "
+        "returned a value and the case line is distinct")
 EXHAUSTIVE = {}
 nontrivial = default_nontrivial
 
@@ -63,6 +65,17 @@ def cases(rng, tier):
             a = G.float_dist(rng, fmt, n)
             op = rng.choice(["proj", "maxu", "umax"])
             out.append(G.line(op, fmt, rng.choice(G.FAMS_1D) + ".o", [n], b + [u] + a))
+        for _ in range(N):
+            # 2-D / 3-D domains
+            fam, sh, n = G.nd_family(rng)
+            if rng.random() < 0.75:
+                w = G.rand_opinion(rng, n, rng.choice([4, 8, 16, 64]), G.rand_kind(rng))
+            else:
+                b, u = G.float_simplex(rng, fmt, n)
+                w = b + [u] + G.float_dist(rng, fmt, n)
+            op = rng.choice(["proj", "proj", "maxu", "umax"])
+            var = fam + "." + (rng.choice(["o", "r", "o.s"]) if op == "proj" else "o")
+            out.append(G.line(op, fmt, var, [n] + sh, w))
     return out
 
 
